@@ -70,7 +70,8 @@ RECIPES = {
     },
     "C10": {
         "level": "model_checking",
-        "mc": {"quick": [("MC_Ident", "MC_Ident_q")], "thorough": [("MC_Ident", "MC_Ident_t")]},
+        "mc": {"quick": [("MC_Ident", "MC_Ident_q"), ("MC_Paths", "MC_Paths_q", 8)],
+               "thorough": [("MC_Ident", "MC_Ident_t"), ("MC_Paths", "MC_Paths_t", 10)]},
         "families": {"quick": [("ident", 1500, 2), ("locate", 40, 2), ("elf", 5, 2)],
                      "thorough": [("ident", 10000, 8), ("locate", 300, 4), ("elf", 40, 4)]},
         "reasons": ("value", "panic"),
